@@ -8,14 +8,33 @@ type c18Val string
 
 var c18ValList = []string{"alpha", "bet", "beta"}
 
+// Complete matches case-insensitively: its items are not always literal
+// extensions of the typed text (the list is the type's business).
 func (c *c18Val) Complete(match string) []Completion {
 	var r []Completion
 	for _, x := range c18ValList {
-		if len(match) <= len(x) && x[:len(match)] == match {
+		if c18FoldPrefix(x, match) {
 			r = append(r, Completion{Item: x})
 		}
 	}
 	return r
+}
+
+// c18FoldPrefix: p is a prefix of s, ASCII letters compared without case.
+func c18FoldPrefix(s, p string) bool {
+	if len(p) > len(s) {
+		return false
+	}
+	for i := 0; i < len(p); i++ {
+		a, b := s[i], p[i]
+		if b >= 'A' && b <= 'Z' {
+			b += 'a' - 'A'
+		}
+		if a != b {
+			return false
+		}
+	}
+	return true
 }
 
 type c18Add struct {
@@ -135,7 +154,7 @@ func c18Ref(typed []c18Item, pending bool, P string) (out []string, cmd string, 
 	}
 	vals := func(pre, match string) {
 		for _, x := range c18ValList {
-			if c18Prefix(x, match) {
+			if c18FoldPrefix(x, match) {
 				out = append(out, pre+x)
 			}
 		}
